@@ -13,7 +13,7 @@ use super::c03::{apply_bounds, drain, expected as range_expected, HIS, LOS};
 use super::util::*;
 use crate::codec::{self, EncodeOpts, Layout};
 use crate::dfa::{all_dfas, ClassFn, TableDfa};
-use crate::ev::{guard, hex, unit, Plan, Reporter, Stats, Tier, VERIF_DIR};
+use crate::ev::{guard, hex, unit, verif_dir, Plan, Reporter, Stats, Tier};
 use crate::front::{self, Front};
 use crate::model::*;
 
@@ -295,7 +295,7 @@ fn golden_models() -> Vec<(String, Vec<Kv>)> {
 }
 
 pub fn regen_golden() {
-    let dir = format!("{}/golden", VERIF_DIR);
+    let dir = format!("{}/golden", verif_dir());
     std::fs::create_dir_all(&dir).unwrap();
     let mut index = vec![];
     for (name, kvs) in golden_models() {
@@ -312,7 +312,7 @@ pub fn regen_golden() {
 }
 
 fn run_golden(auts: &[TableDfa]) -> Result<u64, String> {
-    let dir = format!("{}/golden", VERIF_DIR);
+    let dir = format!("{}/golden", verif_dir());
     let idx: Value = serde_json::from_str(&std::fs::read_to_string(format!("{}/index.json", dir)).map_err(|e| format!("machinery: golden index: {}", e))?).map_err(|e| format!("machinery: {}", e))?;
     let mut n = 0;
     for m in idx["models"].as_array().unwrap() {
